@@ -1,6 +1,7 @@
 package main
 
 import (
+	"fmt"
 	"go/ast"
 	"go/token"
 	"go/types"
@@ -473,13 +474,20 @@ func (c *Ctx) onlyOnSuccess(f *Flow, call Match, target Match, key, rule, where 
 // singleLocalDef returns the defining expression of a local variable that is defined exactly once (x := e or var x = e,
 // one variable per right-hand side) and never assigned, inc/dec'ed or address-taken afterwards; nil otherwise.
 func singleLocalDef(info *types.Info, decl *ast.FuncDecl, obj types.Object) ast.Expr {
+	if decl == nil {
+		return nil
+	}
+	return singleLocalDefIn(info, decl.Body, obj)
+}
+
+func singleLocalDefIn(info *types.Info, body *ast.BlockStmt, obj types.Object) ast.Expr {
 	v, ok := obj.(*types.Var)
-	if !ok || v.IsField() || decl.Body == nil || obj.Pos() < decl.Body.Pos() || obj.Pos() > decl.Body.End() {
+	if !ok || v.IsField() || body == nil || obj.Pos() < body.Pos() || obj.Pos() > body.End() {
 		return nil
 	}
 	var def ast.Expr
 	writes := 0
-	ast.Inspect(decl.Body, func(n ast.Node) bool {
+	ast.Inspect(body, func(n ast.Node) bool {
 		switch x := n.(type) {
 		case *ast.AssignStmt:
 			for i, l := range x.Lhs {
@@ -558,4 +566,159 @@ func (f *Flow) AnyTrueEdges(pred func(e ast.Expr) bool) map[Edge]bool {
 		}
 	}
 	return out
+}
+
+// storedClosure describes a function literal that is stored (assigned, placed in a composite literal, returned or
+// appended) rather than called on the spot, together with the loops that enclose it in its function.
+type storedClosure struct {
+	Lit   *ast.FuncLit
+	Loops []ast.Stmt // enclosing for/range statements, outermost first
+	Decl  *ast.FuncDecl
+}
+
+// storedClosuresIn lists the stored function literals of a function declaration (literals nested in other literals
+// are reported with the loops of the whole enclosing declaration).
+func storedClosuresIn(decl *ast.FuncDecl) []storedClosure {
+	var out []storedClosure
+	if decl.Body == nil {
+		return nil
+	}
+	var stack []ast.Node
+	ast.Inspect(decl.Body, func(n ast.Node) bool {
+		if n == nil {
+			stack = stack[:len(stack)-1]
+			return true
+		}
+		if lit, ok := n.(*ast.FuncLit); ok && len(stack) > 0 {
+			stored := false
+			switch p := stack[len(stack)-1].(type) {
+			case *ast.AssignStmt, *ast.KeyValueExpr, *ast.ReturnStmt, *ast.ValueSpec, *ast.CompositeLit:
+				stored = true
+			case *ast.CallExpr:
+				// append(xs, func…) stores; any other call is taken as a synchronous use
+				if id, ok := p.Fun.(*ast.Ident); ok && id.Name == "append" && p.Fun != ast.Expr(lit) {
+					stored = true
+				}
+			}
+			if stored {
+				sc := storedClosure{Lit: lit, Decl: decl}
+				for _, s := range stack {
+					switch s.(type) {
+					case *ast.ForStmt, *ast.RangeStmt:
+						sc.Loops = append(sc.Loops, s.(ast.Stmt))
+					}
+				}
+				out = append(out, sc)
+			}
+		}
+		stack = append(stack, n)
+		return true
+	})
+	return out
+}
+
+// capturedVars: local variables of the enclosing declaration that the literal refers to (declared outside it).
+func capturedVars(info *types.Info, sc storedClosure) []*types.Var {
+	seen := map[*types.Var]bool{}
+	var out []*types.Var
+	ast.Inspect(sc.Lit.Body, func(n ast.Node) bool {
+		id, ok := n.(*ast.Ident)
+		if !ok {
+			return true
+		}
+		v, ok := info.Uses[id].(*types.Var)
+		if !ok || v.IsField() || seen[v] {
+			return true
+		}
+		if v.Pos() >= sc.Decl.Pos() && v.Pos() < sc.Decl.End() && (v.Pos() < sc.Lit.Pos() || v.Pos() >= sc.Lit.End()) {
+			seen[v] = true
+			out = append(out, v)
+		}
+		return true
+	})
+	return out
+}
+
+// assignmentsTo lists the statements under root that assign to v after its declaration (=, op=, ++/--, range with =,
+// and := that re-uses v).
+func assignmentsTo(info *types.Info, root ast.Node, v *types.Var) []ast.Node {
+	var out []ast.Node
+	ast.Inspect(root, func(n ast.Node) bool {
+		switch x := n.(type) {
+		case *ast.AssignStmt:
+			for _, l := range x.Lhs {
+				if id, ok := ast.Unparen(l).(*ast.Ident); ok && info.ObjectOf(id) == v && id.Pos() != v.Pos() {
+					out = append(out, x)
+				}
+			}
+		case *ast.IncDecStmt:
+			if id, ok := ast.Unparen(x.X).(*ast.Ident); ok && info.ObjectOf(id) == v {
+				out = append(out, x)
+			}
+		case *ast.RangeStmt:
+			for _, e := range []ast.Expr{x.Key, x.Value} {
+				if id, ok := e.(*ast.Ident); ok && x.Tok == token.ASSIGN && info.ObjectOf(id) == v {
+					out = append(out, x)
+				}
+			}
+		}
+		return true
+	})
+	return out
+}
+
+// checkFrozenCaptures: every variable captured by a stored closure created inside a loop holds, when the closure
+// eventually runs, the value it had when the closure was created: it is declared inside the innermost loop that
+// both contains the closure and assigns it (one instance per iteration), and is not assigned after the closure was
+// created. Returns the number of (closure, variable) pairs examined.
+func (c *Ctx) checkFrozenCaptures(key string, pkgRel string, declFilter func(*ast.FuncDecl) bool) int {
+	pk := c.pkg(pkgRel)
+	info := pk.TypesInfo
+	n := 0
+	for _, file := range pk.Syntax {
+		for _, d := range file.Decls {
+			fd, ok := d.(*ast.FuncDecl)
+			if !ok || fd.Body == nil || (declFilter != nil && !declFilter(fd)) {
+				continue
+			}
+			encl := fd.Name.Name
+			if obj, ok := info.Defs[fd.Name].(*types.Func); ok {
+				encl = funcName(obj)
+			}
+			idx := 0
+			for _, sc := range storedClosuresIn(fd) {
+				if len(sc.Loops) == 0 {
+					continue
+				}
+				idx++
+				for _, v := range capturedVars(info, sc) {
+					n++
+					k := fmt.Sprintf("%s/%s#%d/%s", key, encl, idx, v.Name())
+					where := c.P.Pos(sc.Lit.Pos())
+					bad := ""
+					for _, loop := range sc.Loops {
+						if v.Pos() >= loop.Pos() && v.Pos() < loop.End() {
+							continue // one instance per iteration of this loop
+						}
+						for _, a := range assignmentsTo(info, loop, v) {
+							if a.Pos() >= sc.Lit.Pos() && a.End() <= sc.Lit.End() {
+								continue // the closure's own writes
+							}
+							bad = "captured variable " + v.Name() + " is declared outside the loop at " + c.P.Pos(loop.Pos()) + " and assigned inside it at " + c.P.Pos(a.Pos()) + ": every closure of the loop sees the value of the last iteration"
+						}
+					}
+					if bad == "" {
+						inner := sc.Loops[len(sc.Loops)-1]
+						for _, a := range assignmentsTo(info, inner, v) {
+							if a.Pos() > sc.Lit.End() {
+								bad = "captured variable " + v.Name() + " is assigned at " + c.P.Pos(a.Pos()) + " after the closure was created: the closure sees the later value"
+							}
+						}
+					}
+					c.Check(bad == "", k, "a closure stored for later execution inside a loop captures only per-iteration variables that are not assigned after its creation", where, bad)
+				}
+			}
+		}
+	}
+	return n
 }
